@@ -23,3 +23,109 @@ def outcome_class(c, obs):
 
 def classify(c, obs, why):
     return None
+
+
+# ---------------------------------------------------------------- SRP-6a: the Gallina model against hc's accessory
+def _nlist(b):
+    return "[" + "; ".join(str(x) for x in b) + "]%N"
+
+
+def srp_stage(res, a, lines=None):
+    """pair-setup M1..M4 against the real accessory with the controller's secret exponent a given; afterwards the Gallina
+    SRP client (Model/Srp.v, the function C04_srp_completes is about, run with the fast exponentiation of
+    Proofs/SrpFast.v) is evaluated by coqc/vm_compute on (code, a, salt, B) and compared with what the accessory accepted
+    (A, M1) and answered (M2)."""
+    import os, re, shutil
+    from concurrent.futures import ThreadPoolExecutor
+    from .. import core
+    rng = core.rng_for(ID + "/srp", res.seed)
+    if lines is None:
+        kinds = ["ok", "wrongcode", "badproof"] if a.tier == "quick" else ["ok"] * 6 + ["wrongcode"] * 3 + ["badproof"] * 3
+        lines = ["srp %s %x %s" % (sp.valid_pin(rng), rng.getrandbits(rng.choice([256, 256, 64, 8])) + 1, k) for k in kinds]
+    cases = [{"id": "srp%d" % i, "line": l, "kind": "srp/" + l.split(" ")[-1]} for i, l in enumerate(lines)]
+    good = core.vo_ok("Proofs/SrpFast.v")
+    res.obligations.append(("Proofs/SrpFast.v (mexp_fast_spec: the exponentiation the correspondence run evaluates equals b ^ e mod n; "
+                            "depends on the standard library's axioms for primitive 63-bit integers, see trusted base)", good, "compiled" if good else "does not compile"))
+    if not good:
+        res.broken.append("Proofs/SrpFast.v does not compile")
+        return
+    obs = core.shard_run(os.path.join(core.BUILD, "hcdrv"), "srp", ["%s %s" % (c["id"], c["line"].split(" ", 1)[1]) for c in cases])
+    d = os.path.join(core.BUILD, "srp")
+    shutil.rmtree(d, ignore_errors=True)
+    os.makedirs(d)
+    jobs = []
+    for c in cases:
+        o = obs.get(c["id"], "NO-OUTPUT")
+        f = dict(t.split("=", 1) for t in o.split(" ") if "=" in t)
+        c["obs"], c["f"] = o, f
+        if not all(k in f for k in ("code", "salt", "B", "A", "M1", "acc", "M2")):
+            continue
+        hb = lambda k: list(bytes.fromhex(f[k]))
+        src = ("From Coq Require Import ZArith List.\nFrom HC Require Import Base.HBytes Gen.Extracted Model.Srp Proofs.SrpFast.\nImport ListNotations.\nOpen Scope Z_scope.\n"
+               "Definition r := Eval vm_compute in\n  let c := client mexp_fast rfc5054_3072 Extracted.srp_username %s 0x%s %s %s in\n"
+               "  (eqb_bytes (cA c) %s, eqb_bytes (cM1 c) %s, eqb_bytes (cM2 c) %s).\nPrint r.\n"
+               % (_nlist(hb("code")), c["line"].split(" ")[2], _nlist(hb("salt")), _nlist(hb("B")), _nlist(hb("A")), _nlist(hb("M1")), _nlist(hb("M2"))))
+        path = os.path.join(d, c["id"] + ".v")
+        open(path, "w").write(src)
+        jobs.append((c, path))
+
+    def coq(job):
+        c, path = job
+        rc, out = core.sh(["coqc", "-Q", core.COQ, "HC", path], cwd=d, timeout=900, check=False)
+        m = re.search(r"r\s*=\s*\(\s*(true|false)\s*,\s*(true|false)\s*,\s*(true|false)\s*\)", out)
+        c["model"] = tuple(x == "true" for x in m.groups()) if m else None
+        c["coq_out"] = out[-300:]
+    with ThreadPoolExecutor(min(len(jobs), core.NCPU) or 1) as ex:
+        list(ex.map(coq, jobs))
+    bad = 0
+    for c in cases:
+        res.cases += 1
+        h = core.sha(c["line"])
+        res.distinct.add(h)
+        res.nontrivial.add(h)
+        res.count("kind:" + c["kind"])
+        f, why = c["f"], None
+        if "model" not in c:
+            why = "harness failure: " + c["obs"][:120]
+        elif c["model"] is None:
+            why = "the SRP model could not be evaluated: " + c["coq_out"][-200:]
+        else:
+            sameA, sameM1, sameM2 = c["model"]
+            acc = f["acc"] == "1"
+            res.count("outcome:" + c["kind"] + ("/accepted" if acc else "/refused"))
+            if not sameA:
+                why = "the controller's public key A = g^a mod N differs between the SRP model and the reference controller"
+            elif acc != sameM1:
+                why = ("the accessory accepted a proof that is not the specification's M1 for (code, a, salt, B)" if acc else
+                       "the accessory refused (status %s, error %s) the proof the specification prescribes for its own salt and B" % (f.get("st"), f.get("err") or "-"))
+            elif acc and not sameM2:
+                why = "the accessory's proof M2 is not H(A | M1 | K) of the key the specification derives"
+        if why:
+            bad += 1
+            res.violations.append(("srp", {"property": ID, "family": "srp", "seed": res.seed, "case": c["line"], "implementation_observed": c["obs"][:600],
+                                           "model_predicted": str(c.get("model")), "required": why, "failing_input_found": True,
+                                           "replay": "python3 tools/check.py C04 --replay <this file>"}))
+    res.obligations.append(("correspondence SRP-6a model (Model/Srp.v, evaluated by coqc) <-> hc's accessory, pair-setup M1..M4", bad == 0, "%d exchanges, %d disagreeing" % (len(cases), bad)))
+    res.trusted.append("SRP correspondence: the model is evaluated inside Coq (vm_compute) with Bignums exponentiation; Proofs/SrpFast.v relies on the standard "
+                       "library's primitive-integer axioms (Uint63.*_spec, PrimInt63.*), no property theorem does; the accessory's salt and B are inputs of the model run")
+
+
+def run(res, a):
+    import json, sys
+    from .. import core
+    mod = sys.modules[__name__]
+    res.rule = RULE + ("; additionally pair-setup M1..M4 with the controller's SRP secret fixed, recomputed by the Gallina SRP-6a model "
+                       "(right code, wrong code, altered proof; secrets of 8..256 bits)")
+    res.assumptions = list(ASSUMPTIONS)
+    core.build_everything(res, ID, extra_files=EXTRA_FILES)
+    res.trusted += list(TRUSTED)
+    if a.replay:
+        rep = json.load(open(a.replay))
+        if rep["case"].startswith("srp "):
+            srp_stage(res, a, [rep["case"]])
+        else:
+            core.run_correspondence(res, FAMILY, [{"id": "replay", "line": rep["case"], "kind": "replay", "meta": rep.get("meta") or {}}], mod)
+        return
+    rng = core.rng_for(ID, res.seed)
+    core.run_correspondence(res, FAMILY, core.load_corpus(FAMILY) + gen(rng, a.tier), mod)
+    srp_stage(res, a)
